@@ -296,11 +296,7 @@ func genericStub(fn *ssa.Function) intrFn {
 			case "Float32bits", "Float32frombits", "Float64bits", "Float64frombits":
 				return args[0], 1
 			case "IsNaN":
-				t := args[0].(*T)
-				if t.IsC {
-					return BoolC(math.IsNaN(math.Float64frombits(t.C))), 1
-				}
-				return App("uf_isnan", 0, t), 1
+				return floatIsNaN(64, args[0].(*T)), 1
 			case "IsInf":
 				t := args[0].(*T)
 				if t.IsC && args[1].(*T).IsC {
@@ -843,6 +839,36 @@ func registerIntrinsics(m *Machine) {
 			// bytes >= 0x80 take the unicode path in the real function; they are left unchanged here (stated assumption)
 		}
 		return done(r)
+	}
+	I["zzF32bits"] = func(m *Machine, fr *Frame, a []Value, call ssa.Instruction, d bool) (Value, int) { return done(a[0]) }
+	I["zzF64bits"] = func(m *Machine, fr *Frame, a []Value, call ssa.Instruction, d bool) (Value, int) { return done(a[0]) }
+	ident := func(m *Machine, fr *Frame, a []Value, call ssa.Instruction, d bool) (Value, int) { return done(a[0]) }
+	I["internal/stringslite.Clone"] = ident
+	I["strings.Clone"] = ident
+	I["strconv.cloneString"] = ident
+	I["github.com/tinylib/msgp/msgp.UnsafeString"] = func(m *Machine, fr *Frame, a []Value, call ssa.Instruction, d bool) (Value, int) {
+		s := a[0].(Slice)
+		n := int(m.conc(s.Len, 4096))
+		r := Str{B: make([]*T, n)}
+		for i := 0; i < n; i++ {
+			r.B[i] = s.BA.Read(Bin("bvadd", s.Off, BV(64, uint64(i))))
+		}
+		return done(r)
+	}
+	I["github.com/tinylib/msgp/msgp.UnsafeBytes"] = func(m *Machine, fr *Frame, a []Value, call ssa.Instruction, d bool) (Value, int) {
+		s := a[0].(Str)
+		ba := newZeroBA(len(s.B))
+		for i, b := range s.B {
+			m.baStore(ba, BV(64, uint64(i)), b)
+		}
+		n := BV(64, uint64(len(s.B)))
+		return done(Slice{BA: ba, Off: BV(64, 0), Len: n, Cap: n})
+	}
+	// zzConc(x, max): case split over every feasible value of x (harness-controlled concretisation)
+	I["zzConc"] = func(m *Machine, fr *Frame, a []Value, call ssa.Instruction, d bool) (Value, int) {
+		t := a[0].(*T)
+		mx := int(a[1].(*T).C)
+		return done(BV(t.W, m.conc(t, mx)))
 	}
 	I["runtime.KeepAlive"] = func(m *Machine, fr *Frame, a []Value, call ssa.Instruction, d bool) (Value, int) { return done(nil) }
 }
